@@ -221,7 +221,7 @@ Target(p, e) ==
                        [] p = "S" -> (IF q = "" THEN "/" ELSE q)
              url0 == IF IsUrlSel(e.sel) THEN UrlOf(e.sel)
                      ELSE IF e.host = "" /\ e.port = 0 THEN loc
-                     ELSE GopherURL(e, ServerName, 70)               \* NB: default port 70, not ServerPort
+                     ELSE GopherURL(e, ServerName, ServerPort)       \* this server's port (70 before fix e38974e)
              url  == IF p = "W" /\ StartsWith(url0, "/") THEN WapTop \o url0 ELSE url0
          IN [form |-> "url", mark |-> IF e.type = "7" /\ p # "M" THEN "search" ELSE "link",   \* Gemini marks nothing
              sel |-> "", host |-> "", port |-> 0, href |-> url]
@@ -303,9 +303,9 @@ Claims(cls, rq) ==
       [] cls = "SecureGopherProtocol" -> rq.tls
       [] OTHER -> FALSE
 
-\* a class whose canhandlerequest() raises before answering (IndexError on an empty Gopher+ field)
-Crashes(cls, rq) == cls \in {"GopherPlusProtocol", "SecureGopherPlusProtocol"}
-                    /\ (rq.tls <=> cls = "SecureGopherPlusProtocol") /\ GPlusCrash(rq.line)
+\* an empty Gopher+ field ("selector TAB CRLF") is not a Gopher+ request (since fix 6a019e8; before, the
+\* indexing gopherpstring[0] raised IndexError inside getProtocol): no class raises during detection
+Crashes(cls, rq) == FALSE
 
 RECURSIVE ClaimFrom(_, _)
 ClaimFrom(i, rq) == IF i > Len(ProtoOrder) THEN "none"
@@ -481,8 +481,7 @@ Dirs(c, hl) == {"/"} \cup (IF Serve(c, Subj(c), hl).obj = "menu" THEN {Subj(c)} 
                               /\ Serve(c, InnerSel(c), hl).obj = "menu" THEN {InnerSel(c)} ELSE {})
                      \cup (IF c.k = "maildir" /\ Serve(c, Subj(c), hl).by = "UMNDirHandler" THEN MaildirParts(c) ELSE {})
 
-\* the listing of d is produced by whichever handler serves d (Serve(..).by), exactly as for a request
-Listing(c, d, hl) ==
+ListingAll(c, d, hl) ==
     IF d = "/" THEN {Entry(TypeOf(c, Subj(c), hl), FsName(c), Subj(c))} \cup {Entry("0", "zz", a) : a \in Anchors}
     ELSE IF d = Subj(c) THEN
         LET by == Serve(c, d, hl).by IN
@@ -498,9 +497,15 @@ Listing(c, d, hl) ==
     ELSE IF c.k = "maildir" THEN (IF d = Subj(c) \o "/new" THEN {Entry("0", "msg1", d \o "/msg1")} ELSE {})
     ELSE {Entry("0", "leaf", d \o "/leaf")}
 
-\* a directory whose walk meets a selector the security filter rejects answers not-found as a whole
-\* (prep_entries lets FileNotFound propagate: C12's subject); such a directory has no listing
-ListingFails(c, d, hl) == \E e \in Listing(c, d, hl) : ~Secure(e.sel)
+\* the listing of d is produced by whichever handler serves d (Serve(..).by), exactly as for a request.
+\* A directory walk leaves out a child that the handler chain refuses (name rejected by the selector filter;
+\* dir.py prep_entries since fix 6c16d15 - before, such a child took the whole listing down); a gophermap
+\* lists its lines as written.
+Listing(c, d, hl) == LET all == ListingAll(c, d, hl) IN
+                     IF d # "/" /\ Serve(c, d, hl).by = "BuckGophermapHandler" THEN all ELSE {e \in all : Secure(e.sel)}
+
+\* (before fix 6c16d15 a directory whose walk met a refused child answered not-found as a whole)
+ListingFails(c, d, hl) == FALSE
 
 \* what a listing advertises about an entry's kind, per protocol (only some protocols say)
 Advertised(p, e) == IF p \in GopherViews \cup {"H", "HS"} THEN (IF e.type = "1" THEN "menu" ELSE "doc") ELSE "any"
